@@ -133,6 +133,9 @@ func (w *c06World) applyRestart(r *Rec, f []string) string {
 	after := w.xibcDump()
 	var diff []string
 	for k, v := range before {
+		if w.junkKeys[k] {
+			continue
+		}
 		if nv, ok := after[k]; !ok {
 			diff = append(diff, "lost "+c06Clip(k))
 		} else if nv != v {
